@@ -203,12 +203,57 @@ def _check_stack(case):
                 ('spk.sub', '', True), ('spk.sub.leaf', '"""Leaf."""\nx = 1\n', False)]
         if any('broken' in _SNIPPETS[i] for i in case['snippets']):
             mods.append(('stkbad', 'def broken(:\n', False))
+        # recording extensions of every timing, registered after the built-in ones: statement nodes only (the builder shows expression
+        # values to extensions through generic_visit(), without a departure - by design of NodeVisitor.generic_visit)
+        import ast as _ast, contextlib, io
+        from pydoctor import model, astutils, visitor as _vis
+        events = []
+
+        def mk(when):
+            class Rec(astutils.NodeVisitorExt):
+                pass
+            Rec.when = when
+
+            def unknown_visit(self, ob):
+                if isinstance(ob, (_ast.stmt, _ast.Module)):
+                    events.append(('enter', self, ob))
+
+            def unknown_departure(self, ob):
+                if isinstance(ob, (_ast.stmt, _ast.Module)):
+                    events.append(('leave', self, ob))
+            Rec.unknown_visit, Rec.unknown_departure = unknown_visit, unknown_departure
+            return Rec
         try:
-            fixtures.build_system(mods)
+            system = model.System()
+            system._astbuilder_visitors.extend(mk(w) for w in (_vis.When.BEFORE, _vis.When.AFTER, _vis.When.INNER, _vis.When.OUTTER))
+            builder = system.systemBuilder(system)
+            for name, text, is_pkg in mods:
+                parent, _, short = name.rpartition('.')
+                builder.addModuleString(text, short, parent or None, is_package=is_pkg)
+            with contextlib.redirect_stdout(io.StringIO()):
+                builder.buildModules()
         except BaseException as ex:  # noqa
             return {'observed': f'build raised {type(ex).__name__}: {ex}', 'required': 'completes'}
     finally:
         astbuilder.ASTBuilder.processModuleAST = orig
+    open_ = {}
+    for kind, ext, ob in events:
+        key = (id(ext), id(ob))
+        if kind == 'enter':
+            if open_.get(key):
+                return {'observed': f'{type(ob).__name__}@{getattr(ob, "lineno", 0)}: entered twice by a {ext.when.name} extension', 'required': 'each node is entered at most once',
+                        'class': 'builder-ext-twice'}
+            open_[key] = 1
+        else:
+            if not open_.get(key):
+                return {'observed': f'a {ext.when.name} extension leaves {type(ob).__name__}@{getattr(ob, "lineno", 0)} that it never entered', 'required': 'every extension that entered a node also leaves it, and only those',
+                        'class': 'builder-ext-unbalanced'}
+            open_[key] = 0
+    left = [k for k, v in open_.items() if v]
+    if left:
+        kind, ext, ob = next(e for e in events if (id(e[1]), id(e[2])) == left[0])
+        return {'observed': f'a {ext.when.name} extension entered {type(ob).__name__}@{getattr(ob, "lineno", 0)} and never left it', 'required': 'every extension that entered a node also leaves it',
+                'class': 'builder-ext-unbalanced'}
     for name, d, same_cur, same_mod in seen:
         if d != 0 or not same_cur or not same_mod:
             return {'observed': f'after {name}: stack depth changed by {d}, current restored={same_cur}, currentMod restored={same_mod}',
